@@ -29,13 +29,14 @@ type zzCall struct {
 	inv, ret int // global event numbers; ret = 0 while in flight
 	err      error
 	acted    map[string]error // bulk actions: the spaces the keeper acted on
+	all      bool             // bulk action with the all-states filter: covers every space, whatever its state
 }
 
 // applies reports whether call c (a single or bulk action) concerned space sid.
 func (c *zzCall) applies(sid string) bool {
 	if c.acted != nil {
 		_, ok := c.acted[sid]
-		return ok || c.ret == 0 // in flight: may still reach it
+		return ok || c.all || c.ret == 0 // in flight: may still reach it
 	}
 	return c.sid == sid || c.sid == ""
 }
@@ -54,6 +55,23 @@ type zzBub struct {
 	nClientsDone int
 	nClients     int
 	stopReq map[string]int
+	trans   map[string][]zzTrans // observed state changes per space, with their event numbers
+}
+
+type zzTrans struct {
+	seq   int
+	state string
+}
+
+// stateAt: the last state observed for sid at or before event e.
+func (z *zzBub) stateAt(sid string, e int) string {
+	st := ""
+	for _, t := range z.trans[sid] {
+		if t.seq <= e {
+			st = t.state
+		}
+	}
+	return st
 }
 
 func (z *zzBub) fail(prop, check, format string, args ...interface{}) {
@@ -154,6 +172,10 @@ func (z *zzBub) observe() {
 			}
 			z.last[sid] = cur
 			z.hist[sid] = append(z.hist[sid], cur)
+			if z.trans == nil {
+				z.trans = map[string][]zzTrans{}
+			}
+			z.trans[sid] = append(z.trans[sid], zzTrans{z.seq, cur})
 		}
 	}
 	if nPlotting > 1 {
@@ -190,6 +212,59 @@ func (z *zzBub) checkAsked(sid, entering string) {
 	if !asked {
 		z.fail("C09", "plotted-after-stop/"+entering, "space %s entered %s at event %d although every plot/mine request for it had completed before the stop invoked at event %d (returned at %d), and nothing asked again",
 			zzShortSid(sid), entering, z.seq, lastStopInv, lastStopRet)
+	}
+}
+
+// checkAcceptedRequests: the clients are done and the plotter has come to rest. A space for which a
+// plot or mine request was acknowledged, and for which no stop, remove, delete or keeper stop was
+// even invoked afterwards, has made the documented transition: it is not registered any more.
+func (z *zzBub) checkAcceptedRequests() {
+	sk := z.sk
+	if !sk.Started() || len(sk.newQueuedWorkSpaceCh) > 0 || sk.queue.Size() > 0 {
+		return
+	}
+	for _, sid := range z.sids {
+		if z.last[sid] == "plotting" {
+			return // still working (step budget of the drain phase): nothing can be said
+		}
+	}
+	for _, sid := range z.sids {
+		if z.last[sid] != "registered" {
+			continue
+		}
+		var req *zzCall
+		for _, c := range z.calls {
+			single := (c.what == "plot" || c.what == "mine" || c.what == "burst-plot" || c.what == "burst-mine") && c.sid == sid
+			bulk := false
+			if c.what == "bulk-plot" || c.what == "bulk-mine" {
+				// the keeper itself says it accepted the request for this space
+				e, ok := c.acted[sid]
+				bulk = ok && e == nil
+			}
+			cfg := c.what == "configure-exec"
+			// (a request that meets the space while it is plotting - also while an acknowledged stop has
+			// not taken effect yet - is a documented no-op: only requests to a registered space count)
+			if (single || bulk || cfg) && c.ret != 0 && c.err == nil && (cfg || (z.stateAt(sid, c.inv) == "registered" && z.stateAt(sid, c.ret) != "absent")) {
+				req = c
+			}
+		}
+		if req == nil {
+			continue
+		}
+		voided := false
+		for _, c := range z.calls {
+			switch {
+			case c.what == "stop" || c.what == "remove" || c.what == "delete":
+				voided = voided || (c.sid == sid && (c.ret == 0 || c.ret > req.inv))
+			case strings.HasPrefix(c.what, "bulk-") && !strings.Contains(c.what, "plot") && !strings.Contains(c.what, "mine"):
+				voided = voided || c.ret == 0 || c.ret > req.inv
+			case c.what == "keeper-stop" || c.what == "keeper-start" || strings.HasPrefix(c.what, "configure"):
+				voided = voided || (c != req && (c.ret == 0 || c.ret > req.inv))
+			}
+		}
+		if !voided {
+			z.fail("C09", "accepted-request-without-effect/"+strings.TrimPrefix(strings.TrimPrefix(req.what, "bulk-"), "burst-"), "space %s is still registered although %s (events %d..%d) was acknowledged, nothing stopped, removed or deleted it afterwards, and the plotter has nothing left to do", zzShortSid(sid), req.what, req.inv, req.ret)
+		}
 	}
 }
 
@@ -287,6 +362,9 @@ func zzRunBubble(r *sim.Run, focus string) {
 			idle := func() bool { return false }
 			b.RunUntil(idle, 10*time.Minute, 4000, false)
 			z.quiescentChecks()
+		}
+		if !clientsHung && !r.Failed() {
+			z.checkAcceptedRequests()
 		}
 		// keeper shutdown must terminate
 		if !r.Failed() && !clientsHung {
@@ -446,6 +524,7 @@ func (z *zzBub) genOp(client, burstMax int) func() {
 		flags := []engine.WorkSpaceStateFlags{engine.SFAll, engine.SFRegistered, engine.SFReady | engine.SFMining, engine.SFPlotting}[t.Choose("bulk.flags", 4)]
 		return func() {
 			c := z.begin(client, "bulk-"+names[k], "")
+			c.all = flags == engine.SFAll
 			errs, err := sk.ActOnWorkSpaces(flags, acts[k])
 			if errs == nil {
 				errs = map[string]error{}
